@@ -231,8 +231,9 @@ class Rec:
 
 
 class SymEval:
-    def __init__(self, model, cls=None, depth=3, maxpaths=2000, no_splice=(), name_calls=False):
+    def __init__(self, model, cls=None, depth=3, maxpaths=2000, no_splice=(), name_calls=False, private_only=False):
         self.model, self.cls, self.depth, self.maxpaths = model, cls, depth, maxpaths
+        self.private_only = private_only  # splice only private (underscore) methods: public ones are API boundaries
         self.name_calls = name_calls      # let-normal form: the value of an opaque call is the symbol C<index into Rec.calls>
         self.no_splice = set(no_splice)
 
@@ -333,6 +334,13 @@ class SymEval:
                         kchanged = True
                     elif k.arg is None and isinstance(v, ast.Call) and isinstance(v.func, ast.Name) and v.func.id == 'dict' and not v.args \
                             and all(kk.arg for kk in v.keywords):
+                        kws.extend(v.keywords)
+                        kchanged = True
+                    elif k.arg is None and isinstance(v, ast.Call) and isinstance(v.func, ast.Name) and v.func.id == 'dict' \
+                            and len(v.args) == 1 and not isinstance(v.args[0], ast.Starred) and all(kk.arg for kk in v.keywords):
+                        # f(**dict(base, a=1))  ==  f(**base, a=1)   (a key of base that is given again is overridden: the
+                        # explicit keywords are kept last; a duplicate cannot be expressed in a call and is left alone)
+                        kws.append(ast.keyword(arg=None, value=v.args[0]))
                         kws.extend(v.keywords)
                         kchanged = True
                     else:
@@ -468,7 +476,8 @@ class SymEval:
             callee = self.cls.find(f.attr)
             stream_api = callee is not None and f.attr in ('_emit', 'emit', '_retain_refs', '_release_refs') and \
                 getattr(callee.cls, 'name', None) == 'Stream'
-            if callee is not None and not stream_api and f.attr not in self.no_splice:
+            if callee is not None and not stream_api and f.attr not in self.no_splice and not (
+                    self.private_only and not f.attr.startswith('_')):
                 static = any(src(d) == 'staticmethod' for d in callee.node.decorator_list)
                 if not any(src(d) in ('property', 'classmethod') for d in callee.node.decorator_list):
                     return callee, (0 if static else 1)
@@ -591,9 +600,20 @@ class SymEval:
                         v = self.val(q, inner)
                         nxt.append((q, acc + [ast.Starred(value=v, ctx=ast.Load()) if isinstance(a, ast.Starred) else v]))
                 states = nxt
-            for q, acc in states:
+            # keyword values (and **mappings) likewise: a helper call in them is evaluated (spliced) before the call is built
+            kstates = [(q, acc, []) for q, acc in states]
+            for k in node.keywords:
+                nxt = []
+                for q, acc, kws in kstates:
+                    if any(isinstance(x, (ast.Await, ast.Yield, ast.Call)) for x in ast.walk(k.value)) and not isinstance(k.value, ast.Lambda):
+                        for q2, v in self.eval_value(q, k.value, fn, loop, depth):
+                            nxt.append((q2, acc, kws + [ast.keyword(arg=k.arg, value=v)]))
+                    else:
+                        nxt.append((q, acc, kws + [ast.keyword(arg=k.arg, value=self.val(q, k.value))]))
+                kstates = nxt
+            for q, acc, kws in kstates:
                 fexpr = self.val(q, node.func)
-                call = ast.Call(func=fexpr, args=acc, keywords=[ast.keyword(arg=k.arg, value=self.val(q, k.value)) for k in node.keywords])
+                call = ast.Call(func=fexpr, args=acc, keywords=kws)
                 call = self.simplify(call)
                 if not isinstance(call, ast.Call):      # (x.difference(y) and the like are rewritten to operators)
                     yield q, call
